@@ -18,10 +18,18 @@
                              are retrievable (`GetContact 0`, `GetContact (n-1)`) whatever the capacity, incl. zero.
   (The P-Asserted-Identity array has a fixed capacity of 2 in the library; its capacity-generic proof is in
   Proofs/CapacityPAI.lean.)
-  Not proved (oracle only): first/last contact retrievability restated at message level; URI parameter / header
-  list capacities (stand-alone parsers); the signature's truncation indication (C19).
+    * message level (`capacity_from_init_first_last`, `capacity_schedule_first_last`, `first_last_contact`,
+      `contacts_more_indicator`, `contacts_stored_prefix`, `headers_stored_prefix`, `identities_*`): after a successful
+      parse (any chunk schedule, any two capacity choices incl. zero / none) the first and the last contact are
+      retrievable and equal in both runs; 'more' ⇔ N > capacity ⇔ something was dropped; the stored contacts / headers
+      of the smaller array are a prefix of the larger one's; the identity list likewise (its last value is retrievable
+      only when nothing was dropped: GetPAI has no scratch-slot fallback — stated as such).
+  Not proved: URI parameter / header list capacities (stand-alone parsers; see the list-wrapper file if present);
+  while a parse is suspended INSIDE a Contact line the "last contact" read returns the half-parsed value (true of the
+  code as well; the theorems state the condition). The signature's truncation indication is proved in C19.
 -/
 import Sipsp.Proofs.CapacityMsg
+import Sipsp.Proofs.CapacityExtra
 
 namespace Sipsp.C13
 open Sipsp
@@ -83,6 +91,36 @@ theorem capacity_contacts (b : Buf) (o : Nat) (c1 c2 : PContacts) (h : CtW c1 c2
 theorem contacts_new_related (k1 k2 : Nat) :
     CtW ({ vals := Array.replicate k1 {} } : PContacts) ({ vals := Array.replicate k2 {} } : PContacts) :=
   CtW_new k1 k2
+
+/-! ### message level: first / last contact, "more" indicators, stored prefixes, identities -/
+
+/-- every chunk schedule, two Init calls with any capacities (or none): same offset and verdict, the relations of
+    `MsgOutX` (= `MsgOut` + first / last contact agreement) between the two final objects -/
+theorem capacity_from_init_first_last : type_of% @capacity_from_initX := @capacity_from_initX
+
+/-- … from any two related objects -/
+theorem capacity_schedule_first_last : type_of% @capacity_scheduleX := @capacity_scheduleX
+
+/-- **first and last contact retrievable for every capacity (zero included), and equal in both runs** -/
+theorem first_last_contact {m1 m2 : PSIPMsg} (h : MsgDoneX m1 m2) (hn : m1.pv.contacts.n > 0) :
+    m1.pv.contacts.n = m2.pv.contacts.n ∧ ∃ f l,
+      m1.pv.contacts.getContact 0 = some f ∧ m2.pv.contacts.getContact 0 = some f ∧
+      m1.pv.contacts.getContact (m1.pv.contacts.n - 1) = some l ∧
+      m2.pv.contacts.getContact (m2.pv.contacts.n - 1) = some l := h.first_last hn
+
+/-- **the 'more' indicator says exactly when values were dropped**; the stored count is min(N, capacity) -/
+theorem contacts_more_indicator : type_of% @MsgDone.contacts_more := @MsgDone.contacts_more
+
+/-- **what is stored is a prefix of what a larger array holds** (contacts, then headers) -/
+theorem contacts_stored_prefix : type_of% @MsgDone.contacts_mono := @MsgDone.contacts_mono
+theorem headers_stored_prefix : type_of% @MsgDone.hdrs_mono := @MsgDone.hdrs_mono
+
+/-- identity values: stand-alone list parser with any two capacities; indicators, prefix, first / last -/
+theorem capacity_identities : type_of% @capacity_pais := @capacity_pais
+theorem identities_more_prefix : type_of% @PaDone.more_prefix := @PaDone.more_prefix
+theorem identities_first_last : type_of% @PaDone.first_last := @PaDone.first_last
+theorem identities_in_message : type_of% @MsgDone.pais := @MsgDone.pais
+
 
 /-! ### non-vacuity: capacity 0 versus capacity 3 on a two-value Contact line -/
 def exLine : Buf := "<sip:a@b>;expires=5, <sip:c@d>\r\nX".toUTF8.data
